@@ -38,6 +38,8 @@ fn space(b: Expr, k: usize) -> ForestSpace {
         Stmt::Declare("W".into(), r()),
         // a draw next to bracketed literal sub-expressions (nothing about such an entry is constant)
         Stmt::Row(vec![p(bin(BinOp::Add, r(), group(bin(BinOp::Shl, lit(1), lit(4))))), p(bin(BinOp::Mul, r(), un(UnOp::Neg, group(lit(2))))), p(bin(BinOp::Sub, group(lit(0)), r()))]),
+        // a draw in the condition of an ite whose two branches are the same expression
+        Stmt::Row(vec![p(ite(r(), lit(5), lit(5))), l(0), p(ite(random(lit(3)), r(), r()))]),
         // an empty range: an error item; the caller carries on and later draws continue the stream
         Stmt::Row(vec![p(r()), p(random(lit(0))), l(0)]),
     ];
@@ -129,7 +131,8 @@ pub fn run(tier: Tier, seed: u64) -> i32 {
     let deadline = Deadline::new(tier.wall_cap());
     let sigs = sigs();
     let answer: Answer = vec![("a".into(), V::Num(5)), ("Q".into(), V::Num(9))];
-    let script = vec![Step::Ans(answer)];
+    let script = vec![Step::Ans(answer.clone())];
+    let script_x = vec![Step::Ans(answer), Step::Ans(vec![("a".into(), V::X), ("Q".into(), V::Num(9))])];
     let mut seeds: Vec<u64> = vec![0, 1, 2, 3, 42, 1 << 32, u64::MAX];
     for k in 0..4 {
         seeds.push(seed.wrapping_mul(0x9E37_79B9_7F4A_7C15).wrapping_add(1000 + k));
@@ -159,6 +162,12 @@ pub fn run(tier: Tier, seed: u64) -> i32 {
                 let text = text(&prog);
                 let tc = load(&text, &sigs, DEFAULT_BUDGET);
                 for (si, &sd) in seeds.iter().enumerate() {
+                    // under the fourth seed the device reports the output `a` as unknown (X) from the
+                    // second call on: reading it is an error item (no draw), the caller carries on
+                    let script = if si == 3 { &script_x } else { &script };
+                    if si == 3 {
+                        st.witness("device_reports_X_for_an_output_next_to_draws");
+                    }
                     st.evals += 1;
                     let mut opts = RunOpts::new(64);
                     opts.repeat_last = true;
